@@ -4,6 +4,7 @@ import (
 	"fmt"
 	"regexp"
 	"sort"
+	"strconv"
 	"strings"
 
 	"ddcheck/core"
@@ -386,6 +387,25 @@ func checkConvertWalksFaithfulClone(p *core.Program, r *core.Report, rule string
 	walks := core.Calls(conv, func(ci ssa.CallInstruction) bool { return core.IsCallTo(ci, domutilPkg+".WalkNodes") })
 	okWalk := len(walks) == 1 && c.Of(walks[0].Common().Args[0]) == clone
 	r.Add(rule, "Convert walks a deep clone of its argument", p.Pos(conv.Pos()), okWalk, fmt.Sprintf("%d WalkNodes calls", len(walks)))
+	// exempt: the pass of C05-S4, which only touches elements it has looked up by one of the names
+	// whose text the serializer writes verbatim (none of them is a table part)
+	lit := map[string]bool{}
+	names, _ := serializerLiteralNames(p)
+	for _, n := range names {
+		lit[n] = true
+	}
+	confined := func(v string) bool {
+		q := "dom.GetElementsByTagName(" + clone + ","
+		if strings.Count(v, clone) != strings.Count(v, q) {
+			return false
+		}
+		for _, s := range reQuoted.FindAllString(v, -1) {
+			if u, err := strconv.Unquote(s); err != nil || !lit[u] {
+				return false
+			}
+		}
+		return true
+	}
 	var hits []string
 	for _, in := range instrsOf(conv) {
 		switch x := in.(type) {
@@ -394,7 +414,7 @@ func checkConvertWalksFaithfulClone(p *core.Program, r *core.Report, rule string
 				continue
 			}
 			for _, a := range x.Common().Args {
-				if strings.Contains(c.Of(a), clone) {
+				if v := c.Of(a); strings.Contains(v, clone) && !confined(v) {
 					hits = append(hits, fmt.Sprintf("%s at %s", core.Callee(x).Name(), p.Pos(in.Pos())))
 					break
 				}
